@@ -10,7 +10,8 @@ component properties (`C09:*`: reaching definitions, `C02:promote`: narrowing) p
 Skeleton: `a0`/`a1` assignment to `v` (`a1`: the assigned value depends on `v`'s previous value, directly or
 through names assigned in the same loop), `o` another simple statement, `u f` the failing evaluation
 (test flag `f` = 1: an `isinstance(v, float|complex)` test occurs in the same statement / condition; `f` = 2: the
-condition is the truth value of another variable `w` that was assigned from an expression containing a test on `v`),
+condition is the truth value of another variable `w` that was assigned from an expression containing a test on `v`;
+`f` = 3: the condition is `v in s` / `v not in s` with `s` a str literal or a name),
 `br`, `co`, `ret`, `rs`,
 `ite f B E`, `loop always f B E` (`while`/`for`; `always`: `while True`), `try B Hs E F`,
 `mt irrefutable f Cs` (`match`; `irrefutable`: the last case is a wildcard / capture without guard).
@@ -151,6 +152,9 @@ comparison / isinstance / `not` result) carries a constraint on `v` (`w = t + t 
 pyanalyze applies that constraint (inverted in the else branch) to `v` although the truth value of `w` may come from
 another member of the union. -/
 def P_unionMemberConstraint (s : Sk) : Bool := s.testFlag == 2
+/-- own class: the condition is `v in <str>` / `v not in <str>`: the narrowing treats the str as the collection of its
+characters (`InPredicate`), but `in` on strs is substring containment: `'' in ''`, `'ab' in 'ab'`. -/
+def P_strContainment (s : Sk) : Bool := s.testFlag == 3
 /-- REPAIRED in /repo (232b32d): no longer one of the classes `d01Classes` reports — a recurrence is a new violation;
 kept as the description of the regression case in corpus/C01.jsonl. Formerly an own class: a `match` nested in a branch (of an `if`, a loop, a `try`, another `match`). When the cases
 exhaust the subject's inferred type (a wildcard last case, or `case None:` on a `None` subject, …) visit_Match marks
@@ -162,6 +166,7 @@ def P_matchExhaustive (s : Sk) : Bool :=
 def d01Classes (prog : List Sk) : List String :=
   let c (name : String) (P : Sk → Bool) : List String := if scanL P false prog then [name] else []
   c "C02:promote" P_promote ++ c "unionMemberConstraint" P_unionMemberConstraint ++
+  c "strContainment" P_strContainment ++
   c "loopCarriedLiteral" P_loopCarriedLiteral ++
   c "C09:loopElse" P_loopElse ++
   c "C09:secondVisitSeed" P_secondVisitSeed ++ c "C09:loopBreak" P_loopBreak ++
@@ -189,5 +194,11 @@ as the list / tuple form with the members of the display in source order, althou
 (and merges equal elements). `conv`: the callee is `list` or `tuple`; `seqForm`: the inferred result is a
 list / tuple form; `valSeq`: the runtime result is a list or tuple. -/
 def D01_setDisplayOrder (conv seqForm valSeq : Bool) : Bool := conv && seqForm && valSeq
+
+/-- class `loopCarriedSubscript` for failing *subscripts* `v[i]` / `v[a:b]`: inside a loop whose body assigns `v`, the
+subscript is inferred from only one of the definitions of `v` that reach it (the value before the loop, or the one
+assigned in the body), although the read of `v` itself sees both. `isSub`: the failing node is a subscript of a name;
+`assignedInLoop`: an enclosing loop assigns that name. -/
+def D01_loopCarriedSubscript (isSub assignedInLoop : Bool) : Bool := isSub && assignedInLoop
 
 end Pya.C01
